@@ -111,10 +111,9 @@ def run_witnesses(pid, kfs, wd):
     traces = []
     for k in opened:
         w = dict(k["witness"])
-        w.setdefault("id", "witness-" + k["id"])
-        w.setdefault("prop", pid)
-        for ev in w["events"]:
-            ev.setdefault("prop", pid)
+        w["id"] = "witness-" + k["id"]
+        w["prop"] = pid
+        w["events"] = [dict(ev, prop=pid) for ev in w["events"]]
         traces.append(w)
     again, v = reexecute_and_validate(traces, wd, "witness")
     status = []
